@@ -38,6 +38,7 @@ type c11Plan struct {
 	Stream    bool        `json:"stream_request_body"`
 	Conns     [][]c11Req `json:"conns"`
 	Pools     bool        `json:"adversarial_pools"`
+	Pipeline  bool        `json:"clients_pipeline_pairs,omitempty"` // two plain requests are sent in one segment: the second is buffered while the first is served
 }
 
 func init() { scenarios["C11"] = scenC11 }
@@ -156,7 +157,7 @@ func genC11Req(e *Env, id string) c11Req {
 }
 
 func scenC11(e *Env) func() {
-	p := &c11Plan{ReduceMem: e.Chance(40), Stream: e.Chance(40), Pools: e.Chance(75)}
+	p := &c11Plan{ReduceMem: e.Chance(40), Stream: e.Chance(40), Pools: e.Chance(75), Pipeline: e.Chance(35)}
 	nconn := e.Range(2, 4)
 	for ci := 0; ci < nconn; ci++ {
 		var rs []c11Req
@@ -401,6 +402,8 @@ func c11Run(e *Env, p *c11Plan) {
 		ci := ci
 		fs = append(fs, func() {
 			var sc *SeqClient
+			plain := func(r *c11Req) bool { return r.Kind == "normal" || r.Kind == "form" || r.Kind == "multipart" }
+			pending := false // the previous iteration already sent this request (pipelined pair)
 			for i := range p.Conns[ci] {
 				r := &p.Conns[ci][i]
 				if sc == nil {
@@ -408,12 +411,21 @@ func c11Run(e *Env, p *c11Plan) {
 					if sc, err = k.NewSeqClient(fmt.Sprintf("10.0.11.%d", ci+1), simnet.Faults{}); err != nil {
 						return
 					}
+					pending = false
 				}
-				if err := sc.Send(r.wire, e0cuts(len(r.wire), ci+i)); err != nil {
+				wire, cuts := r.wire, e0cuts(len(r.wire), ci+i)
+				pair := false
+				if p.Pipeline && !pending && i+1 < len(p.Conns[ci]) && plain(r) && plain(&p.Conns[ci][i+1]) {
+					wire, cuts, pair = append(append([]byte(nil), r.wire...), p.Conns[ci][i+1].wire...), nil, true
+				}
+				if pending {
+					pending = false
+				} else if err := sc.Send(wire, cuts); err != nil {
 					sc.C.Close()
 					sc = nil
 					continue
 				}
+				pending = pair
 				resp, _, err := sc.ReadResp(r.Method, time.Minute)
 				if err != nil {
 					sc.C.Close()
